@@ -35,6 +35,9 @@
 #ifndef RB_SZ
 #define RB_SZ 5          /* words per area */
 #endif
+#ifndef RB_NB
+#define RB_NB (RB_NA * RB_SZ + 2)   /* words of the caller buffer of block access */
+#endif
 
 /* words of a register by type (u16: one 16-bit word, ...); 0 for anything
  * that is not a value type.  Macro: usable in loop invariants/quantifiers. */
@@ -53,7 +56,7 @@
 #define RB_E_INSIDE(e, a) (RB_M64((a)->base) <= RB_M64((e)->address) && RB_E_END(e) <= RB_A_END(a))
 /* [lo, lo+len) and the register overlap */
 #define RB_E_OVERLAPS(e, lo, len) \
-  (RB_M64((e)->address) < RB_M64(lo) + RB_M64(len) && RB_M64(lo) < RB_E_END(e))
+  ((len) != 0 && RB_M64((e)->address) < RB_M64(lo) + RB_M64(len) && RB_M64(lo) < RB_E_END(e))
 
 /* the code's own (wrapping, 32-bit) reading: bit-precise leaf contracts */
 #define RB_U32(x) ((uint32_t)(x))
@@ -116,30 +119,75 @@ static inline bool rb_constraint_ok(const RegisterEntry *e, uint64_t bits, bool 
   return spec_valid(e, v, during_init);
 }
 
+/* ---- the model: a table as plain values --------------------------------
+ * Copies of the table header, of both lists (terminators included), of every
+ * stored word, and the index of the area each register is linked to.  The
+ * spec functions below work on the model only; it is taken once before the
+ * call (what the statement calls the description / the current content) and
+ * once after it.  (Besides being the natural reading of the statements this
+ * keeps the symbolic execution cheap: CBMC 6.11 pays for every textual
+ * pointer dereference.) */
+struct rb_model {
+  uint16_t tflags;
+  uint32_t tareas, tentries;
+  uint32_t na, ne;                       /* list lengths = terminator positions */
+  RegisterArea a[RB_NA + 1];
+  RegisterEntry e[RB_NE + 1];
+  uint16_t w[RB_NA][RB_SZ];              /* stored words; 0 where there is no storage */
+  uint32_t ai[RB_NE + 1];                /* area the register's area pointer designates, na if none */
+};
+
+static inline void rb_model_of(struct rb_model *m, const RegisterTable *t, uint32_t na, uint32_t ne)
+{
+  const RegisterArea *ta = t->area;
+  const RegisterEntry *te = t->entry;
+  m->tflags = t->flags; m->tareas = t->areas; m->tentries = t->entries;
+  m->na = na; m->ne = ne;
+  for (uint32_t i = 0; i <= RB_NA; i++)
+    if (i <= na)
+      m->a[i] = ta[i];
+  for (uint32_t i = 0; i < RB_NA; i++)
+    for (uint32_t k = 0; k < RB_SZ; k++) {
+      m->w[i][k] = 0;
+      if (i < na && m->a[i].mem != NULL && k < m->a[i].size)
+        m->w[i][k] = m->a[i].mem[k];
+    }
+  for (uint32_t j = 0; j <= RB_NE; j++)
+    if (j <= ne)
+      m->e[j] = te[j];
+  for (uint32_t j = 0; j < RB_NE; j++) {
+    m->ai[j] = na;
+    if (j < ne)
+      for (uint32_t i = 0; i < RB_NA; i++)
+        if (i < na && m->ai[j] == na && m->e[j].area == &ta[i])
+          m->ai[j] = i;
+  }
+}
+
 /* ---- the flat address space ------------------------------------------ */
 
 /* index of the area mapping address x, na if none */
-static inline uint32_t rb_area_of(const RegisterArea *area, uint32_t na, uint64_t x)
+static inline uint32_t rb_area_of(const struct rb_model *m, uint64_t x)
 {
-  for (uint32_t i = 0; i < RB_NA && i < na; i++)
-    if (x <= 0xffffffffull && RB_A_HAS(&area[i], x))
+  for (uint32_t i = 0; i < RB_NA && i < m->na; i++)
+    if (x <= 0xffffffffull && RB_A_HAS(&m->a[i], x))
       return i;
-  return na;
+  return m->na;
 }
 
 /* first unmapped address in [lo, lo+len), or lo+len if all are mapped.  The
  * first unmapped address of a range is the range's start or the end of an
  * area (the address behind a mapped one). */
-static inline uint64_t rb_first_unmapped(const RegisterArea *area, uint32_t na, uint32_t lo, uint32_t len)
+static inline uint64_t rb_first_unmapped(const struct rb_model *m, uint32_t lo, uint32_t len)
 {
   uint64_t hi = RB_M64(lo) + RB_M64(len), best = hi;
   if (len == 0)
     return hi;
-  if (rb_area_of(area, na, lo) == na)
+  if (rb_area_of(m, lo) == m->na)
     return lo;
-  for (uint32_t i = 0; i < RB_NA && i < na; i++) {
-    uint64_t c = RB_A_END(&area[i]);
-    if (c > lo && c < best && rb_area_of(area, na, c) == na)
+  for (uint32_t i = 0; i < RB_NA && i < m->na; i++) {
+    uint64_t c = RB_A_END(&m->a[i]);
+    if (c > lo && c < best && rb_area_of(m, c) == m->na)
       best = c;
   }
   return best;
@@ -147,12 +195,12 @@ static inline uint64_t rb_first_unmapped(const RegisterArea *area, uint32_t na, 
 
 /* first address in [lo, lo+len) that lies in an area that is not writable,
  * or lo+len */
-static inline uint64_t rb_first_readonly(const RegisterArea *area, uint32_t na, uint32_t lo, uint32_t len)
+static inline uint64_t rb_first_readonly(const struct rb_model *m, uint32_t lo, uint32_t len)
 {
   uint64_t hi = RB_M64(lo) + RB_M64(len), best = hi;
-  for (uint32_t i = 0; i < RB_NA && i < na; i++) {
-    const RegisterArea *a = &area[i];
-    if (a->size != 0 && !RB_AREA_WRITABLE(a) && RB_M64(a->base) < hi && RB_M64(lo) < RB_A_END(a)) {
+  for (uint32_t i = 0; i < RB_NA && i < m->na; i++) {
+    const RegisterArea *a = &m->a[i];
+    if (!RB_AREA_WRITABLE(a) && RB_M64(a->base) < hi && RB_M64(lo) < RB_A_END(a)) {
       uint64_t c = RB_M64(a->base) > RB_M64(lo) ? RB_M64(a->base) : RB_M64(lo);
       if (c < best)
         best = c;
@@ -161,13 +209,15 @@ static inline uint64_t rb_first_readonly(const RegisterArea *area, uint32_t na, 
   return best;
 }
 
-/* the word stored at mapped address x (0 if x is unmapped or has no memory) */
-static inline uint16_t rb_stored_word(const RegisterArea *area, uint32_t na, uint64_t x)
+/* the word stored at address x (0 if x is unmapped or has no storage) */
+static inline uint16_t rb_stored_word(const struct rb_model *m, uint64_t x)
 {
-  uint32_t i = rb_area_of(area, na, x);
-  if (i == na || area[i].mem == NULL)
-    return 0;
-  return area[i].mem[x - RB_M64(area[i].base)];
+  for (uint32_t i = 0; i < RB_NA && i < m->na; i++)
+    if (x <= 0xffffffffull && RB_A_HAS(&m->a[i], x))
+      for (uint32_t k = 0; k < RB_SZ; k++)
+        if (RB_M64(m->a[i].base) + k == x)
+          return m->w[i][k];
+  return 0;
 }
 
 /* ---- C04: the first violated rule of a table description --------------
@@ -187,36 +237,34 @@ static inline bool rb_default_ok(const RegisterEntry *e)
   return rb_decodes(e->type, bits) && rb_constraint_ok(e, bits, true);
 }
 
-static inline struct rb_init_expect
-rb_spec_first_violation(const RegisterArea *area, uint32_t na, const RegisterEntry *entry, uint32_t ne,
-                        bool be)
+static inline struct rb_init_expect rb_spec_first_violation(const struct rb_model *m)
 {
-  (void)be;
   struct rb_init_expect r = { REG_INIT_SUCCESS, 0 };
+  const uint32_t na = m->na, ne = m->ne;
   if (na == 0) {
     r.code = REG_INIT_NO_AREAS;
     return r;
   }
   for (uint32_t i = 1; i < RB_NA && i < na; i++) {
     for (uint32_t k = 0; k < RB_NA && k < i; k++)
-      if (area[i].base < area[k].base) {
+      if (m->a[i].base < m->a[k].base) {
         r.code = REG_INIT_AREA_INVALID_ORDER; r.index = i;
         return r;
       }
     for (uint32_t k = 0; k < RB_NA && k < i; k++)
-      if (RB_M64(area[i].base) < RB_A_END(&area[k])) {
+      if (RB_M64(m->a[i].base) < RB_A_END(&m->a[k])) {
         r.code = REG_INIT_AREA_ADDRESS_OVERLAP; r.index = i;
         return r;
       }
   }
   for (uint32_t j = 1; j < RB_NE && j < ne; j++) {
     for (uint32_t k = 0; k < RB_NE && k < j; k++)
-      if (entry[j].address < entry[k].address) {
+      if (m->e[j].address < m->e[k].address) {
         r.code = REG_INIT_ENTRY_INVALID_ORDER; r.index = j;
         return r;
       }
     for (uint32_t k = 0; k < RB_NE && k < j; k++)
-      if (RB_M64(entry[j].address) < RB_E_END(&entry[k])) {
+      if (RB_M64(m->e[j].address) < RB_E_END(&m->e[k])) {
         r.code = REG_INIT_ENTRY_ADDRESS_OVERLAP; r.index = j;
         return r;
       }
@@ -224,13 +272,17 @@ rb_spec_first_violation(const RegisterArea *area, uint32_t na, const RegisterEnt
   for (uint32_t j = 0; j < RB_NE && j < ne; j++) {
     uint32_t in = na;
     for (uint32_t i = 0; i < RB_NA && i < na; i++)
-      if (in == na && RB_E_INSIDE(&entry[j], &area[i]))
+      if (in == na && RB_E_INSIDE(&m->e[j], &m->a[i]))
         in = i;
     if (in == na) {
       r.code = REG_INIT_ENTRY_IN_MEMORY_HOLE; r.index = j;
       return r;
     }
-    if (RB_AREA_LOADS_DEFAULTS(&area[in]) && !rb_default_ok(&entry[j])) {
+    bool loads = false;
+    for (uint32_t i = 0; i < RB_NA && i < na; i++)
+      if (i == in)
+        loads = RB_AREA_LOADS_DEFAULTS(&m->a[i]);
+    if (loads && !rb_default_ok(&m->e[j])) {
       r.code = REG_INIT_ENTRY_INVALID_DEFAULT; r.index = j;
       return r;
     }
@@ -238,67 +290,58 @@ rb_spec_first_violation(const RegisterArea *area, uint32_t na, const RegisterEnt
   return r;
 }
 
-/* word k of area ai after a successful initialisation: the image word of the
+/* word k of area i after a successful initialisation: the image word of the
  * default of the register located there if the area loads defaults, else 0 */
-static inline uint16_t
-rb_spec_init_word(const RegisterArea *area, uint32_t na, const RegisterEntry *entry, uint32_t ne,
-                  bool be, uint32_t ai, uint32_t k)
+static inline uint16_t rb_spec_init_word(const struct rb_model *m, bool be, uint32_t i, uint32_t k)
 {
-  if (ai >= na || k >= area[ai].size || !RB_AREA_LOADS_DEFAULTS(&area[ai]))
+  if (!RB_AREA_LOADS_DEFAULTS(&m->a[i]))
     return 0;
-  uint64_t x = RB_M64(area[ai].base) + k;
-  for (uint32_t j = 0; j < RB_NE && j < ne; j++)
-    if (RB_M64(entry[j].address) <= x && x < RB_E_END(&entry[j]))
-      return rb_image_word(entry[j].type, rb_bits_of(entry[j].type, entry[j].default_value), be,
-                           (unsigned)(x - RB_M64(entry[j].address)));
+  uint64_t x = RB_M64(m->a[i].base) + k;
+  for (uint32_t j = 0; j < RB_NE && j < m->ne; j++)
+    if (RB_M64(m->e[j].address) <= x && x < RB_E_END(&m->e[j]))
+      return rb_image_word(m->e[j].type, rb_bits_of(m->e[j].type, m->e[j].default_value), be,
+                           (unsigned)(x - RB_M64(m->e[j].address)));
   return 0;
 }
 
 /* ---- table well-formedness ---------------------------------------------
  * What register_init establishes (C04) and what block access and iteration
- * rely on (C02, C03): areas and registers ascending and disjoint inside the
- * 32-bit space, every register linked to the one area that contains it
- * wholly (area pointer, offset), every area recording exactly the contiguous
- * run of the registers linked to it.  (Nothing is said about first/last of an
- * area without registers.) */
-static inline uint32_t rb_area_index(const RegisterTable *t, const RegisterArea *a)
+ * rely on (C02, C03): the table header records the list lengths; areas and
+ * registers ascending and disjoint inside the 32-bit space; every register
+ * linked to the one area that contains it wholly (area pointer, offset);
+ * every area recording exactly the contiguous run of the registers linked to
+ * it.  (Nothing is said about first/last of an area without registers.) */
+static inline bool rb_wf_area(const struct rb_model *m, uint32_t i)
 {
-  for (uint32_t i = 0; i < RB_NA && i < t->areas; i++)
-    if (a == &t->area[i])
-      return i;
-  return t->areas;
-}
-
-static inline bool rb_wf_area(const RegisterTable *t, uint32_t i)
-{
-  const RegisterArea *a = &t->area[i];
+  const RegisterArea *a = &m->a[i];
   if (a->size < 1 || RB_A_END(a) > 0xffffffffull)
     return false;
-  if (i + 1 < t->areas && RB_A_END(a) > RB_M64(t->area[i + 1].base))
+  if (i + 1 < m->na && RB_A_END(a) > RB_M64(m->a[i + 1].base))
     return false;
   return true;
 }
 
-static inline bool rb_wf_entry(const RegisterTable *t, uint32_t j)
+static inline bool rb_wf_entry(const struct rb_model *m, uint32_t j)
 {
-  const RegisterEntry *e = &t->entry[j];
+  const RegisterEntry *e = &m->e[j];
   if (!RB_TYPE_IS_VALUE(e->type) || !RB_CHECK_IS_ENUM(e->check.type) || RB_E_END(e) > 0xffffffffull)
     return false;
-  if (j + 1 < t->entries && RB_E_END(e) > RB_M64(t->entry[j + 1].address))
+  if (j + 1 < m->ne && RB_E_END(e) > RB_M64(m->e[j + 1].address))
     return false;
-  uint32_t ai = rb_area_index(t, e->area);
-  if (ai >= t->areas)
+  if (m->ai[j] >= m->na)
     return false;
-  const RegisterArea *a = &t->area[ai];
-  return RB_E_INSIDE(e, a) && e->offset == e->address - a->base;
+  for (uint32_t i = 0; i < RB_NA && i < m->na; i++)
+    if (i == m->ai[j] && !(RB_E_INSIDE(e, &m->a[i]) && e->offset == e->address - m->a[i].base))
+      return false;
+  return true;
 }
 
-static inline bool rb_wf_run(const RegisterTable *t, uint32_t i)
+static inline bool rb_wf_run(const struct rb_model *m, uint32_t i)
 {
-  const RegisterArea *a = &t->area[i];
+  const RegisterArea *a = &m->a[i];
   uint32_t cnt = 0, first = 0, last = 0;
-  for (uint32_t j = 0; j < RB_NE && j < t->entries; j++)
-    if (t->entry[j].area == a) {
+  for (uint32_t j = 0; j < RB_NE && j < m->ne; j++)
+    if (m->ai[j] == i) {
       if (cnt == 0)
         first = j;
       last = j;
@@ -309,18 +352,18 @@ static inline bool rb_wf_run(const RegisterTable *t, uint32_t i)
   return cnt == 0 || (a->entry.first == first && a->entry.last == last && last - first + 1u == cnt);
 }
 
-static inline bool rb_table_wf(const RegisterTable *t)
+static inline bool rb_model_wf(const struct rb_model *m)
 {
-  if (t->areas < 1 || t->areas > RB_NA || t->entries > RB_NE)
+  if (m->na < 1 || m->na > RB_NA || m->ne > RB_NE || m->tareas != m->na || m->tentries != m->ne)
     return false;
-  for (uint32_t i = 0; i < RB_NA && i < t->areas; i++)
-    if (!rb_wf_area(t, i))
+  for (uint32_t i = 0; i < RB_NA && i < m->na; i++)
+    if (!rb_wf_area(m, i))
       return false;
-  for (uint32_t j = 0; j < RB_NE && j < t->entries; j++)
-    if (!rb_wf_entry(t, j))
+  for (uint32_t j = 0; j < RB_NE && j < m->ne; j++)
+    if (!rb_wf_entry(m, j))
       return false;
-  for (uint32_t i = 0; i < RB_NA && i < t->areas; i++)
-    if (!rb_wf_run(t, i))
+  for (uint32_t i = 0; i < RB_NA && i < m->na; i++)
+    if (!rb_wf_run(m, i))
       return false;
   return true;
 }
@@ -336,29 +379,26 @@ static inline bool rb_table_wf(const RegisterTable *t)
     && (a)->name == (b)->name && (a)->flags == (b)->flags && (a)->user == (b)->user)
 
 /* the description (terminators included) is what it was */
-static inline bool rb_description_same(const RegisterTable *t, const RegisterArea *area0, uint32_t na,
-                                       const RegisterEntry *entry0, uint32_t ne)
+static inline bool rb_description_same(const struct rb_model *pre, const struct rb_model *post)
 {
-  for (uint32_t i = 0; i <= RB_NA && i <= na; i++)
-    if (!RB_AREA_DESC_SAME(&t->area[i], &area0[i]))
+  for (uint32_t i = 0; i <= RB_NA; i++)
+    if (i <= pre->na && !RB_AREA_DESC_SAME(&post->a[i], &pre->a[i]))
       return false;
-  for (uint32_t j = 0; j <= RB_NE && j <= ne; j++)
-    if (!RB_ENTRY_DESC_SAME(&t->entry[j], &entry0[j]))
+  for (uint32_t j = 0; j <= RB_NE; j++)
+    if (j <= pre->ne && !RB_ENTRY_DESC_SAME(&post->e[j], &pre->e[j]))
       return false;
   return true;
 }
 
 /* every word of every memory-backed area is the image word of the default
  * located there (areas that load defaults) or zero */
-static inline bool rb_init_words_ok(const RegisterTable *t, uint32_t na, uint32_t ne, bool be)
+static inline bool rb_init_words_ok(const struct rb_model *pre, const struct rb_model *post, bool be)
 {
-  for (uint32_t i = 0; i < RB_NA && i < na; i++) {
-    const RegisterArea *a = &t->area[i];
-    if (a->mem != NULL)
-      for (uint32_t k = 0; k < RB_SZ && k < a->size; k++)
-        if (a->mem[k] != rb_spec_init_word(t->area, na, t->entry, ne, be, i, k))
-          return false;
-  }
+  for (uint32_t i = 0; i < RB_NA; i++)
+    for (uint32_t k = 0; k < RB_SZ; k++)
+      if (i < pre->na && pre->a[i].mem != NULL && k < pre->a[i].size
+          && post->w[i][k] != rb_spec_init_word(pre, be, i, k))
+        return false;
   return true;
 }
 
@@ -377,28 +417,193 @@ static inline bool rb_init_verdict_ok(RegisterInit r, struct rb_init_expect x)
   }
 }
 
-/* ---- register_set as register_init sees it (initialised table, valid
- * handle, register linked to its area): accepted iff the value is valid for
- * the register (type, constraint), the area has a write callback and the
- * value decodes; then the register's words hold the value's image. */
-static inline bool rb_set_accepts(const RegisterTable *t, RegisterHandle idx, RegisterValue v)
+/* ---- C03: block read --------------------------------------------------
+ * Statement: on an initialised table a read of n words succeeds exactly when
+ * all n addresses are mapped; word i is then the word stored at addr+i (zero
+ * for areas that are not readable); otherwise the first unmapped address is
+ * reported; n == 0 always succeeds; an uninitialised table is reported as
+ * such. */
+struct rb_access_expect {
+  RegisterAccessCode code;
+  uint32_t address;
+  bool address_matters;
+};
+
+static inline struct rb_access_expect rb_spec_block_read(const struct rb_model *m, uint32_t addr, uint32_t n)
 {
-  const RegisterEntry *e = &t->entry[idx];
-  return spec_valid(e, v, (t->flags & REG_TF_DURING_INIT) != 0)
-      && e->area->write != NULL
-      && spec_float_ok(e->type, spec_bits(e->type, v.value));
+  struct rb_access_expect r = { REG_ACCESS_SUCCESS, 0, false };
+  if ((m->tflags & REG_TF_INITIALISED) == 0) {
+    r.code = REG_ACCESS_UNINITIALISED;
+    return r;
+  }
+  if (n == 0)
+    return r;
+  uint64_t u = rb_first_unmapped(m, addr, n);
+  if (u < RB_M64(addr) + RB_M64(n)) {
+    r.code = REG_ACCESS_NOENTRY; r.address = (uint32_t)u; r.address_matters = true;
+  }
+  return r;
 }
 
-static inline bool rb_set_stored(const RegisterTable *t, RegisterHandle idx, RegisterValue v)
+/* word i of a successful read */
+static inline uint16_t rb_spec_read_word(const struct rb_model *m, uint32_t addr, uint32_t i)
 {
-  const RegisterEntry *e = &t->entry[idx];
-  const uint16_t *w = e->area->mem + e->offset;
-  const unsigned n = RB_WORDS(e->type);
-  const uint64_t bits = spec_bits(e->type, v.value);
-  const bool be = (t->flags & REG_TF_BIG_ENDIAN) != 0;
-  for (unsigned k = 0; k < 4u; k++)
-    if (k < n && w[k] != spec_word(bits, n, be, k))
+  uint64_t x = RB_M64(addr) + i;
+  for (uint32_t a = 0; a < RB_NA && a < m->na; a++)
+    if (x <= 0xffffffffull && RB_A_HAS(&m->a[a], x))
+      return RB_AREA_READABLE(&m->a[a]) ? rb_stored_word(m, x) : 0;
+  return 0;
+}
+
+static inline bool rb_access_verdict_ok(RegisterAccess r, struct rb_access_expect x)
+{
+  return r.code == x.code && (!x.address_matters || r.address == x.address);
+}
+
+/* nothing of the table changed: header, lists, every stored word */
+static inline bool rb_model_same(const struct rb_model *pre, const struct rb_model *post)
+{
+  if (pre->tflags != post->tflags || pre->tareas != post->tareas || pre->tentries != post->tentries)
+    return false;
+  if (!rb_description_same(pre, post))
+    return false;
+  for (uint32_t i = 0; i < RB_NA; i++) {
+    if (i < pre->na && (pre->a[i].entry.first != post->a[i].entry.first || pre->a[i].entry.last != post->a[i].entry.last
+                        || pre->a[i].entry.count != post->a[i].entry.count))
       return false;
+    for (uint32_t k = 0; k < RB_SZ; k++)
+      if (pre->w[i][k] != post->w[i][k])
+        return false;
+  }
+  for (uint32_t j = 0; j < RB_NE; j++)
+    if (j < pre->ne && (pre->ai[j] != post->ai[j] || pre->e[j].offset != post->e[j].offset))
+      return false;
+  return true;
+}
+
+/* ---- C03: iteration over an address range ----------------------------------
+ * Statement: the callback is called exactly for the registers that overlap
+ * [addr, addr+off), in ascending order, stopping at the first non-zero callback
+ * result; a negative result means failure at that register's address. */
+struct rb_iter_expect {
+  uint32_t first;     /* handle of the first register overlapping the range */
+  uint32_t count;     /* number of registers overlapping it (a contiguous run) */
+};
+
+static inline struct rb_iter_expect rb_spec_iter(const struct rb_model *m, uint32_t addr, uint32_t off)
+{
+  struct rb_iter_expect r = { 0, 0 };
+  for (uint32_t j = 0; j < RB_NE && j < m->ne; j++)
+    if (RB_E_OVERLAPS(&m->e[j], addr, off)) {
+      if (r.count == 0)
+        r.first = j;
+      r.count++;
+    }
+  return r;
+}
+
+/* ---- C02: block write ---------------------------------------------------
+ * Statement: a write of n words succeeds exactly when every addressed word is
+ * mapped, every touched area is writable, and every register the block
+ * overlaps (fully or partly) still decodes and satisfies its constraint once
+ * the new words are overlaid on its current content; otherwise the failure
+ * class is named with the first address inside the request at which it arises.
+ * Precedence between classes (the statement names none): the documented order
+ * of the checks -- read-only, unmapped, then the registers in ascending order
+ * (decode before constraint). */
+static inline struct rb_access_expect
+rb_spec_block_write(const struct rb_model *m, uint32_t addr, uint32_t n, const uint16_t *buf)
+{
+  struct rb_access_expect r = { REG_ACCESS_SUCCESS, 0, false };
+  const uint64_t hi = RB_M64(addr) + RB_M64(n);
+  const bool be = (m->tflags & REG_TF_BIG_ENDIAN) != 0;
+  if ((m->tflags & REG_TF_INITIALISED) == 0) {
+    r.code = REG_ACCESS_UNINITIALISED;
+    return r;
+  }
+  if (n == 0)
+    return r;
+  r.address_matters = true;
+  uint64_t x = rb_first_readonly(m, addr, n);
+  if (x < hi) {
+    r.code = REG_ACCESS_READONLY; r.address = (uint32_t)x;
+    return r;
+  }
+  x = rb_first_unmapped(m, addr, n);
+  if (x < hi) {
+    r.code = REG_ACCESS_NOENTRY; r.address = (uint32_t)x;
+    return r;
+  }
+  for (uint32_t j = 0; j < RB_NE && j < m->ne; j++) {
+    const RegisterEntry *e = &m->e[j];
+    if (RB_E_OVERLAPS(e, addr, n)) {
+      uint16_t w[4] = { 0, 0, 0, 0 };
+      for (uint32_t k = 0; k < 4u; k++)
+        if (k < RB_WORDS(e->type)) {
+          uint64_t a = RB_M64(e->address) + k;
+          if (RB_M64(addr) <= a && a < hi) {
+            for (uint32_t i = 0; i < RB_NB; i++)     /* buf[a - addr] */
+              if (RB_M64(addr) + i == a)
+                w[k] = buf[i];
+          } else {
+            w[k] = rb_stored_word(m, a);
+          }
+        }
+      uint64_t bits = rb_decode(e->type, be, w);
+      r.address = e->address > addr ? e->address : addr;
+      if (!rb_decodes(e->type, bits)) {
+        r.code = REG_ACCESS_INVALID;
+        return r;
+      }
+      if (!rb_constraint_ok(e, bits, (m->tflags & REG_TF_DURING_INIT) != 0)) {
+        r.code = REG_ACCESS_RANGE;
+        return r;
+      }
+    }
+  }
+  r.address = 0; r.address_matters = false;
+  return r;
+}
+
+/* after a successful write: exactly the n addressed words hold the caller's
+ * words, exactly the overlapped registers are marked touched, nothing else of
+ * the table changed */
+static inline bool
+rb_write_done_ok(const struct rb_model *pre, const struct rb_model *post, uint32_t addr, uint32_t n, const uint16_t *buf)
+{
+  const uint64_t hi = RB_M64(addr) + RB_M64(n);
+  if (pre->tflags != post->tflags || pre->tareas != post->tareas || pre->tentries != post->tentries)
+    return false;
+  for (uint32_t i = 0; i <= RB_NA; i++)
+    if (i <= pre->na && !RB_AREA_DESC_SAME(&post->a[i], &pre->a[i]))
+      return false;
+  for (uint32_t i = 0; i < RB_NA; i++) {
+    if (i < pre->na && (pre->a[i].entry.first != post->a[i].entry.first || pre->a[i].entry.last != post->a[i].entry.last
+                        || pre->a[i].entry.count != post->a[i].entry.count))
+      return false;
+    for (uint32_t k = 0; k < RB_SZ; k++) {
+      uint16_t want = pre->w[i][k];
+      if (i < pre->na && k < pre->a[i].size) {
+        uint64_t a = RB_M64(pre->a[i].base) + k;
+        if (RB_M64(addr) <= a && a < hi)
+          for (uint32_t b = 0; b < RB_NB; b++)
+            if (RB_M64(addr) + b == a)
+              want = buf[b];
+      }
+      if (post->w[i][k] != want)
+        return false;
+    }
+  }
+  for (uint32_t j = 0; j <= RB_NE; j++)
+    if (j <= pre->ne) {
+      RegisterEntry was = pre->e[j];
+      if (j < pre->ne && RB_E_OVERLAPS(&pre->e[j], addr, n))
+        was.flags |= REG_EF_TOUCHED;
+      if (!RB_ENTRY_DESC_SAME(&post->e[j], &was))
+        return false;
+      if (j < pre->ne && (pre->ai[j] != post->ai[j] || pre->e[j].offset != post->e[j].offset))
+        return false;
+    }
   return true;
 }
 
